@@ -26,7 +26,7 @@ pub static SPEC: PropSpec = PropSpec {
     case_cpu_s: 60,
     shards: 0,
     run,
-    floors: &[("executed", 300, 20_000), ("corpus_outputs_matched", 60, 60), ("projects_executed", 8, 200), ("failed_as_expected", 0, 20)],
+    floors: &[("executed", 300, 20_000), ("corpus_outputs_matched", 60, 60), ("projects_executed", 8, 200), ("failed_as_expected", 0, 20), ("builtin_named_function_programs_ok", 32, 32)],
     finish: None,
 };
 
@@ -216,7 +216,15 @@ fn run(ctx: &mut Ctx) {
         f.n_fns = 3 + rng.below(5);
         f.failures = rng.chance(1, 10);
         f.ident_mode = if rng.chance(1, 4) { 1 } else { 0 };
-        let (prog, tags) = generate(&mut rng, f);
+        let (prog, mut tags) = generate(&mut rng, f);
+        // every fourth program: functions, locals, fields, methods .. renamed onto Go keywords goml does not reserve and
+        // onto Go's predeclared names (append, len, panic, string, ..): the meaning must not change
+        let prog = if i % 4 == 3 {
+            tags.insert("keyword_renamed");
+            crate::props::c19::keyword_renaming(&prog, &mut rng).program(&prog)
+        } else {
+            prog
+        };
         let label = format!("gen/{}/{}", ctx.shard, i);
         let twin = rng.chance(1, 5);
         ctx.case(&label.clone(), |c| {
@@ -260,6 +268,54 @@ fn run(ctx: &mut Ctx) {
             crate::props::c17::check_inherent_overlap(c, "C01", true);
             c.count("executions", 1);
         });
+    }
+    // 3b. user functions named like Go's predeclared functions and types, with effects, results discarded in three
+    // ways, and (for the Vec-shaped ones) next to the builtin vec operations that are emitted under those Go names
+    {
+        let names = ["append", "len", "cap", "panic", "print", "println", "new", "make", "copy", "delete", "min", "max", "clear", "close", "complex", "real", "imag", "recover", "int", "uint", "uintptr", "byte", "rune", "error", "any", "nil", "iota", "comparable"];
+        for (i, name) in names.iter().enumerate() {
+            if !ctx.mine(60_000 + i as u64) {
+                continue;
+            }
+            let src = format!(
+                "fn {n}(r: Ref[int32], k: int32) -> int32 {{\n    let _ = string_println(\"in \" + int32_to_string(k));\n    let _ = ref_set(r, ref_get(r) + k);\n    k\n}}\nfn grow(xs: Vec[int32], x: int32) -> Vec[int32] {{ vec_push(xs, x) }}\nfn main() -> unit {{\n    let r = ref(0);\n    let _ = {n}(r, 5);\n    {n}(r, 7);\n    let unused = {n}(r, 1);\n    let v: Vec[int32] = grow(grow(vec_new(), 3), 4);\n    let _ = string_println(int32_to_string(ref_get(r)) + \" \" + int32_to_string(vec_len(v)) + \" \" + int32_to_string(vec_get(v, 1)));\n    ()\n}}\n",
+                n = name
+            );
+            let label = format!("builtin-named-function/{}", name);
+            ctx.case(&label.clone(), |c| {
+                if let Some((out, term, stderr)) = crate::exec::run_source(c, "C01", &label, &src, 1_000_000) {
+                    let expected = "in 5\nin 7\nin 1\n13 2 4\n";
+                    if out == expected && matches!(term, Term::Ok) {
+                        c.count("builtin_named_function_programs_ok", 1);
+                        c.nontrivial(hash_str(&src));
+                    } else {
+                        c.violation(format!("C01:builtin-named-function:{}", name), format!("{} prints {:?} ({:?} {}), expected {:?}", label, out, term, util::truncate(&stderr, 80), expected), json!({"label": label, "source": src, "stdout": out}));
+                    }
+                }
+            });
+        }
+        // Vec-shaped functions named like the Go builtins the vec operations are emitted as
+        for (i, name) in ["append", "len", "cap", "copy"].iter().enumerate() {
+            if !ctx.mine(61_000 + i as u64) {
+                continue;
+            }
+            let src = format!(
+                "fn {n}(xs: Vec[int32], x: int32) -> Vec[int32] {{\n    let _ = string_println(\"user \" + int32_to_string(x));\n    if x > 100 {{ xs }} else {{ vec_push(xs, x + 1000) }}\n}}\nfn main() -> unit {{\n    let v0: Vec[int32] = vec_new();\n    let v1 = vec_push(v0, 1);\n    let v2 = {n}(v1, 2);\n    let v3 = vec_push(v2, 3);\n    let _ = string_println(int32_to_string(vec_len(v3)) + \" \" + int32_to_string(vec_get(v3, 0)) + \" \" + int32_to_string(vec_get(v3, 1)) + \" \" + int32_to_string(vec_get(v3, 2)));\n    ()\n}}\n",
+                n = name
+            );
+            let label = format!("builtin-named-vec-function/{}", name);
+            ctx.case(&label.clone(), |c| {
+                if let Some((out, term, stderr)) = crate::exec::run_source(c, "C01", &label, &src, 1_000_000) {
+                    let expected = "user 2\n3 1 1002 3\n";
+                    if out == expected && matches!(term, Term::Ok) {
+                        c.count("builtin_named_function_programs_ok", 1);
+                        c.nontrivial(hash_str(&src));
+                    } else {
+                        c.violation(format!("C01:builtin-named-function:vec:{}", name), format!("{} prints {:?} ({:?} {}), expected {:?}", label, out, term, util::truncate(&stderr, 80), expected), json!({"label": label, "source": src, "stdout": out}));
+                    }
+                }
+            });
+        }
     }
     // 4. generated multi-package projects
     let np = tier.pick(48u64, 2_000u64) / ctx.nshards as u64 + 1;
